@@ -190,6 +190,9 @@ func checkOp(r *Report, a *API, name string, spec *OpSpec, aspects aspectSet) {
 	nRep := []int{2}
 	if spec.Via == "broadcast" {
 		nRep = []int{0, 1, 2}
+		if deep {
+			nRep = append(nRep, 3)
+		}
 	}
 	acc := &opAcc{m: map[string]*opVerdict{}}
 	fn := a.Ops[name]
